@@ -405,6 +405,7 @@ def check_C16(ctx):
     import opening, collections
     ctx.trusted += M1_TRUST + ["what the indexer makes of a cut tape is Model/Prefix.v (tied by the C06 sweep); Initialize is Model/Fs.v fs_initialize (tied by the FS correspondence run)"]
     coq_props(ctx, "C16", ["C16_never_rewrites", "C16_existing_index_untouched", "C16_rebuild_appends_nothing", "C16_appends_only_without_root", "C16_rebuildable_tape", "C16_absent_index", "C16_current_index", "C16_current_index_root_kept", "C16_rebuilt_index", "C16_continue_current", "C16_continue_rebuilt", "C16_reopened_shows_the_same_tree", "C16_rebuilt_instance_is_related", "C16_rebuilt_instance_step", "C16_related_instances_show_the_same_tree", "C16_rebuilt_instance_simulates_writer", "C16_written_after_opening_survive_rebuild", "C16_rebuilt_instance_step_any_config", "C16_rebuilt_instance_simulates_writer_any_config", "C16_written_after_opening_survive_rebuild_any_config"])
+    coq_props(ctx, "C16Transfer", ["C16_reader_C13", "C16_reader_C02", "C16_conforms_rd_step", "C16_abs_rd_lookup", "C16_reader_C04", "C16_transfer_C13", "C16_transfer_C02", "C16_transfer_C04", "C16_transfer_stat"])
     # the FS correspondence run ties fs_initialize / reopen
     import streams
     data_fs = streams.fs_stream(ctx)
@@ -439,6 +440,7 @@ def check_C17(ctx):
     import foreign, collections
     ctx.trusted += M1_TRUST + ["afero.BasePathFs (prefixing and cleaning of caller spellings below a named root) and archive/tar as the foreign writer are trusted"]
     coq_props(ctx, "C17", ["C17_root_spellings", "C17_slash_spelling_empty_root", "C17_named_root_identity", "C17_demo", "C17_foreign_view", "C17_foreign_view_dotslash", "C17_foreign_view_slash", "C17_foreign_rows", "C17_foreign_listing", "C17_foreign_read", "C17_foreign_stat", "C17_foreign_walk", "C17_spellings_sanitize", "C17_spellings_resolve", "C17_root_spellings_resolve", "C17_named_base_path", "C17_mkdir_coexists", "C17_create_coexists", "C17_insert_view", "C17_foreign_simulates_twin", "C17_foreign_continuation", "C17_twin_is_the_tree", "C17_foreign_reference", "C17_twin_Good", "C17_named_top_simulates_twin", "C17_named_top_step", "C17_named_top_view", "C17_named_top_continuation", "C17_named_top_names", "C17_named_top_vs_foreign", "C17_named_top_reference"])
+    coq_props(ctx, "C16Transfer", ["C17_foreign_C13", "C17_foreign_C02", "C17_foreign_C04", "C17_twin_Good4", "C17_twin_content", "C17_named_C13", "C17_named_C02", "C17_conforms_named_step", "C17_named_C04"])
     data = foreign.foreign_stream(ctx)
     tie = foreign.c17_tie(ctx, data)
     ctx.oblige("correspondence: the model's rebuild evaluates in Coq on the foreign archives", tie["ok"], tie["log"])
